@@ -123,6 +123,8 @@ def ensure_driver():
 def driver(lines, timeout=3000):
     """Pipe op lines to the compiled Lean driver; one output line per op."""
     ensure_driver()
+    if not lines:
+        return []
     data = ('\n'.join(lines) + '\n').encode()
     try:
         p = subprocess.run([DRIVER], input=data, stdout=subprocess.PIPE, stderr=subprocess.PIPE,
